@@ -1312,5 +1312,71 @@ theorem good2_all (hwf : CfgWF cfg) : ∀ (n : Nat) (j : Json), sizeOf j < n →
 theorem expected_preserves_and_adds_defaults (hwf : CfgWF cfg) (t : Ty) (j : Json) (hc : conforms cfg t j = true) :
     Preserved j (expected cfg t j) ∧ AddedOk cfg t j (expected cfg t j) :=
   good2_all hwf (sizeOf j + 1) j (by omega) t hc
+variable {cfg : Cfg}
+
+/-! ## how member-by-member union trial tells model variants apart -/
+
+/-- An object that lacks a required member of a class is rejected by that class. -/
+theorem missing_required_rejects {cls : String} {c : Class} (hwf : ClassWF c) (hfind : cfg.find cls = some c)
+    {f : Field} (hf : f ∈ c.fields) (hdef : f.default = none) (hopt : f.ty.isOpt = false)
+    (kvs : List (String × Json)) (hnd : keysNodup kvs = true) (hna : ∀ p ∈ kvs, NotAttrName c p.1)
+    (hk : hasKey f.wire kvs = false) :
+    ∃ e, validate cfg (.ref cls) (.obj kvs) = .error e := by
+  have hnd' : keysNodup (validateMembers cfg c kvs) = true := by
+    rw [validateMembers_eq]
+    exact keysNodup_map_key' _ _ kvs (fun p hp q hq he => attrOf_inj hwf (hna p hp) (hna q hq) he) hnd
+  have hlk : lookup f.name (validateMembers cfg c kvs) = none := by
+    rw [validateMembers_eq,
+      lookup_map_key c.attrOf (memberRes cfg c) f.name f.wire kvs
+        (fun p hp => attr_eq_name_iff hwf (hna p hp) hf),
+      lookup_map_dep, lookup_none_of_not_hasKey hk]
+    rfl
+  have hfv : fieldValue f (validateMembers cfg c kvs) = .error "field required" := by
+    simp [fieldValue, hlk, hdef, hopt]
+  have hmem : (f.name, Except.error "field required") ∈
+      c.fields.map (fun f => (f.name, fieldValue f (validateMembers cfg c kvs)))
+        ++ (validateMembers cfg c kvs).filter (fun m => (c.byName m.1).isNone) := by
+    apply List.mem_append_left
+    exact List.mem_map.mpr ⟨f, hf, by rw [hfv]⟩
+  obtain ⟨e, he⟩ := seqFields_error hmem
+  exact ⟨e, by simp only [validate, hfind, assemble, collapse_of_nodup _ hnd', he]⟩
+
+/-- model-class members of a union, in trial order -/
+def refMembers : Ty → List String
+  | .union a b => refMembers a ++ refMembers b
+  | .ref c => [c]
+  | _ => []
+
+/-- the unions of model classes that occur in a field type -/
+def unionsOf : Ty → List (List String)
+  | .opt t => unionsOf t
+  | .list t => unionsOf t
+  | .dict t => unionsOf t
+  | .union a b => [refMembers (.union a b)]
+  | _ => []
+
+def orderedPairs {α : Type} : List α → List (α × α)
+  | [] => []
+  | x :: r => r.map (fun y => (x, y)) ++ orderedPairs r
+
+/-- `A` and `B` carry a `Literal` tag under the same wire name with disjoint constants -/
+def tagDisjoint (A B : Class) : Bool :=
+  A.fields.any (fun f => match f.ty with
+    | .lit vs => B.fields.any (fun g => g.wire == f.wire && (match g.ty with
+        | .lit ws => vs.all (fun v => !ws.contains v)
+        | _ => false))
+    | _ => false)
+
+/-- `A` requires a member that `B` does not declare -/
+def requiresUndeclared (A B : Class) : Bool :=
+  A.fields.any (fun f => f.required && f.default.isNone && !f.ty.isOpt && !B.fields.any (fun g => g.wire == f.wire))
+
+/-- the earlier union member `a` cannot accept what conforms to the later member `b`: by a tag
+(`tag_mismatch_rejects`) or by a required member `b` does not declare (`missing_required_rejects`,
+for objects that do not carry that name as an unknown member) -/
+def separated (classes : List Class) (a b : String) : Bool :=
+  match classes.find? (fun c => c.id == a), classes.find? (fun c => c.id == b) with
+  | some A, some B => tagDisjoint A B || requiresUndeclared A B
+  | _, _ => false
 
 end Verif.Lemmas.Schema
